@@ -350,6 +350,8 @@ def value_attr(interp, base, attr, st, node):
         return out
     if attr in ("shape",):
         co = count_origin(base) | frozenset(t_ for t_ in base.tags if isinstance(t_, tuple) and t_ and t_[0] == "ret")
+        if base.pdeps:
+            co = co | {("len-of", tuple(sorted(base.pdeps)))}        # x.shape is a statement about the size of x, as len(x) is
         el_ = Val(kind="int", dim=D0, deps=base.deps, pdeps=base.pdeps, tags=co)
         items_ = None
         sl_ = shape_last(base)
@@ -361,7 +363,8 @@ def value_attr(interp, base, attr, st, node):
         return Val(kind="tuple", dim=D0, elem=el_, items=items_,
                    deps=base.deps, pdeps=base.pdeps, born=interp.time, tags=co, extra=("shape", base))
     if attr in ("size", "ndim"):
-        return Val(kind="int", dim=D0, born=interp.time, tags=count_origin(base) if attr == "size" else frozenset())
+        lo_ = frozenset([("len-of", tuple(sorted(base.pdeps)))]) if base.pdeps else frozenset()
+        return Val(kind="int", dim=D0, born=interp.time, pdeps=base.pdeps, tags=(count_origin(base) if attr == "size" else frozenset()) | lo_)
     if attr == "flags":
         return Val(kind="flags", dim=D0)
     if attr == "dtype":
@@ -1019,6 +1022,8 @@ def _call_ext(interp, ext, node, args, kwargs, st):
             sym = a0.sym.pow(e) if (a0 is not None and a0.sym is not None) else None
             return fresh(dim_pow(a0.dim, e) if a0 is not None else TOP, sym=sym,
                          guardp=a0.guardp if name != "square" else frozenset(),
+                         tags=frozenset(["norm"]) if (name == "sqrt" and a0 is not None and "sumsq" in a0.tags) else (
+                             frozenset(["square-of"]) if (name == "square" and a0 is not None and a0.kind in ("arr", "unknown")) else frozenset()),
                          kind=a0.kind if a0 is not None and a0.kind in ("float",) else ("float" if sym is not None else "arr"))
         if name in ("power", "float_power"):
             b = args[1] if len(args) > 1 else Val()
@@ -1050,6 +1055,15 @@ def _call_ext(interp, ext, node, args, kwargs, st):
                 elems = list(args[:2])
             else:
                 elems = _seq_elems(interp, a0, st, node) if a0 is not None else []
+            # np.concatenate((x[k:], x[:k])): the rows of x rotated by k - the same value as np.roll(x, -k, axis=0)
+            if name in ("concatenate", "vstack") and len(elems) == 2 and (len(args) == 1 or (len(args) == 2 and args[1].has_const() and args[1].const == 0)) \
+                    and (not kwargs or (set(kwargs) == {"axis"} and kwargs["axis"].has_const() and kwargs["axis"].const == 0)):
+                rs = [[t_ for t_ in e.tags if isinstance(t_, tuple) and t_ and t_[0] == "rowslice"] for e in elems]
+                if all(len(r_) == 1 for r_ in rs) and rs[0][0][1] == rs[1][0][1]:
+                    (_, bid, lo1, hi1), (_, _b, lo2, hi2) = rs[0][0], rs[1][0]
+                    base_ = getattr(interp, "_slice_bases", {}).get(bid)
+                    if base_ is not None and hi1 is None and lo2 is None and isinstance(lo1, int) and lo1 == hi2 and lo1 != 0:
+                        return call_ext(interp, "numpy.roll", node, [base_, vconst(-lo1)], {"axis": vconst(0)}, st)
             d = ANY
             conflict = False
             for e in elems:
